@@ -422,9 +422,9 @@ func checkBitmap(l gen.Lattice2, o *kit.Obs) error {
 // parametric generators
 
 type paramCase struct {
-	Kind  string    `json:"kind"`
-	P     []float64 `json:"p"`
-	N     []int     `json:"n"`
+	Kind  string      `json:"kind"`
+	P     []float64   `json:"p"`
+	N     []int       `json:"n"`
 	Shape *gen.Shape3 `json:"shape,omitempty"`
 }
 
@@ -643,6 +643,10 @@ func genPolytope(t *rapid.T) polyCase {
 
 type rectSetCase struct {
 	Ops [][7]int `json:"ops"` // add(1)/remove(0)/AddRectSet(2)/RemoveRectSet(3), min xyz, size xyz; set ops use a two-box set
+	// placement: the integer lattice is scaled by 2^UnitLog2 and moved by Off lattice steps (all coordinates stay
+	// exactly representable); zero values = the lattice as it is
+	UnitLog2 int    `json:"unit_log2,omitempty"`
+	Off      [3]int `json:"off,omitempty"`
 }
 
 func genRectSet(t *rapid.T) rectSetCase {
@@ -660,15 +664,31 @@ func genRectSet(t *rapid.T) rectSetCase {
 			rapid.IntRange(0, 3).Draw(t, "x"), rapid.IntRange(0, 3).Draw(t, "y"), rapid.IntRange(0, 3).Draw(t, "z"),
 			rapid.IntRange(1, 2).Draw(t, "dx"), rapid.IntRange(1, 2).Draw(t, "dy"), rapid.IntRange(1, 2).Draw(t, "dz")})
 	}
+	if rapid.Bool().Draw(t, "placed") {
+		c.UnitLog2 = rapid.IntRange(-30, 30).Draw(t, "unit_log2")
+		far := rapid.SampledFrom([]int{0, 100, 1 << 20, 1 << 24, 1 << 26}).Draw(t, "far")
+		for a := range c.Off {
+			c.Off[a] = rapid.IntRange(-far, far).Draw(t, "off")
+		}
+	}
 	return c
 }
 
 func checkRectSet(c rectSetCase, o *kit.Obs) error {
 	rs := toolbox3d.NewRectSet()
 	var grid [6][6][6]bool
+	unit := math.Ldexp(1, c.UnitLog2)
+	place := func(x, y, z int) model3d.Coord3D {
+		return model3d.XYZ(float64(x+c.Off[0])*unit, float64(y+c.Off[1])*unit, float64(z+c.Off[2])*unit)
+	}
+	if c.UnitLog2 != 0 || c.Off != [3]int{} {
+		o.Label("placed")
+		if c.Off[0] > 1<<16 || c.Off[0] < -(1<<16) {
+			o.Label("placed:far")
+		}
+	}
 	for _, op := range c.Ops {
-		r := &model3d.Rect{MinVal: model3d.XYZ(float64(op[1]), float64(op[2]), float64(op[3])),
-			MaxVal: model3d.XYZ(float64(op[1]+op[4]), float64(op[2]+op[5]), float64(op[3]+op[6]))}
+		r := &model3d.Rect{MinVal: place(op[1], op[2], op[3]), MaxVal: place(op[1]+op[4], op[2]+op[5], op[3]+op[6])}
 		fill := func(ox, oy, oz int, v bool) {
 			for x := ox; x < ox+op[4]; x++ {
 				for y := oy; y < oy+op[5]; y++ {
@@ -687,8 +707,7 @@ func checkRectSet(c rectSetCase, o *kit.Obs) error {
 			// a set of two boxes: r and r shifted by (1,1,0) (they overlap or touch along an edge)
 			other := toolbox3d.NewRectSet()
 			other.Add(r)
-			sh := model3d.XYZ(1, 1, 0)
-			other.Add(&model3d.Rect{MinVal: r.MinVal.Add(sh), MaxVal: r.MaxVal.Add(sh)})
+			other.Add(&model3d.Rect{MinVal: place(op[1]+1, op[2]+1, op[3]), MaxVal: place(op[1]+op[4]+1, op[2]+op[5]+1, op[3]+op[6])})
 			if op[0] == 2 {
 				rs.AddRectSet(other)
 			} else {
@@ -701,6 +720,14 @@ func checkRectSet(c rectSetCase, o *kit.Obs) error {
 		fill(op[1], op[2], op[3], op[0] == 1 || op[0] == 2)
 	}
 	tris := m3.Tris(rs.Mesh())
+	// back to the lattice's own frame: differences of nearby numbers and divisions by a power of two are exact
+	for i := range tris {
+		for j := range tris[i] {
+			for a := 0; a < 3; a++ {
+				tris[i][j][a] = (tris[i][j][a] - float64(c.Off[a])*unit) / unit
+			}
+		}
+	}
 	var in, out []kit.V3
 	touch := false
 	for x := 0; x < 6; x++ {
